@@ -3,12 +3,12 @@
 
    harness/gen_args.py reads the Python `ast` of data.py on every run and
    writes __init__, __coerce, append, extend, insert, remove, pop, reverse,
-   clear and __getitem__ -- and the classmethod TexGroup.parse they rely on --
-   as terms of this language (Model/ArgGen.v);
+   clear, __getitem__, __contains__ and __str__ -- and the classmethod
+   TexGroup.parse they rely on -- as terms of this language (Model/ArgGen.v);
    Proofs/ArgGenProofs.v proves that interpreting them gives exactly the
    hand-written operations of Model/Args.v (the model the C18 proofs are
-   about).  NOT translated (they do not fit: list comprehension over
-   `.string`, map/join over str/repr): __contains__, __str__, __repr__.
+   about).  NOT translated: __repr__ (repr of a group needs Python's
+   string-literal escaping, which is not modelled).
    Trusted: the translator maps each Python construct to the constructor named
    after it, and the interpreter gives it the meaning it has in Python:
 
@@ -62,6 +62,24 @@
    + - max min < <= == (ints)   a if c else b   and / not (truth values of
              bools only).   x = e;  return e;  if/elif/else;
    for x in e   e must be a VArgs (or arg_type); an exception in the body ends the loop.
+   [p for x in self] / [p for x in self.all]   (also written as a generator
+             expression or map(str, .) where it is consumed at once by any / join)
+             a finite sequence of values VList, consumed by any(.) and s.join(.)
+             only (len / isinstance / ... of it: OUnsup).  The elements are those
+             of the list itself (groups) or of self.all AT THAT MOMENT; the element
+             expression p is of the separate, effect-free type pexpr: the
+             comprehension variable, an enclosing local, a.string (of a group:
+             the string it was built from -- TexExpr.string, ''.join(map(str,
+             _contents)) -- as Args.m_contains reads it; of anything else:
+             OUnsup), str(a) (of a group: Args.render, the reading of
+             TexEnv.__str__ that item_eqb relies on too; of a str: itself),
+             a == b (both a group or a str: the textual TexExpr.__eq__ /
+             str.__eq__ / TexText.__eq__, Args.item_eqb).  The comprehension
+             variable is visible in p only.
+   any(l)    l a VList of bools (anything else: OUnsup): some element is True.
+   s.join(l) s a str, l a VList of strs (anything else: OUnsup).   'abc' a str constant.
+   super().__contains__(x)   list membership, `e is x or e == x` for some element
+             e: == as for remove / index (identity implies it).
    Exceptions are those of Args.out (TypeError, ValueError, IndexError) and
    carry the state of self at the raise; every other error is OUnsup.  No
    unbounded loops; calls nest at most call_depth deep (OFuel beyond). *)
@@ -84,18 +102,35 @@ Inductive value :=
 | VObj (st : state)
 | VSelf
 | VCls (k : bool)                    (* the class BracketGroup (true) / BraceGroup (false) *)
-| VClasses (ks : list bool).         (* a tuple of such classes *)
+| VClasses (ks : list bool)          (* a tuple of such classes *)
+| VList (l : list value).            (* the values of a comprehension / generator / map *)
 
 Inductive meth :=
 | M_init | M_coerce | M_append | M_extend | M_insert | M_remove | M_pop | M_reverse
-| M_clear | M_getitem | M_parse.
+| M_clear | M_getitem | M_parse | M_contains | M_str.
 
 Inductive recv := RSuper | RAll.
-Inductive lop := LInit | LInsert | LRemove | LPop | LReverse | LClear | LGetitem | LIndex | LAppend.
+Inductive lop := LInit | LInsert | LRemove | LPop | LReverse | LClear | LGetitem | LIndex | LAppend
+| LContains.
 Inductive cmpop := CLt | CLe | CEq.
+
+(* what a comprehension iterates over: the list itself / self.all *)
+Inductive csrc := CSelf | CAll.
+
+(* the element expression of a comprehension: no effects, no calls of methods *)
+Inductive pexpr :=
+| PElem                              (* the comprehension variable *)
+| PVar (x : nat)                     (* a parameter / local of the enclosing method *)
+| PString (a : pexpr)                (* a.string *)
+| PStr (a : pexpr)                   (* str(a) *)
+| PEq (a b : pexpr).                 (* a == b *)
 
 Inductive expr :=
 | ENone
+| EStr (s : pstr)                    (* a str constant *)
+| EComp (p : pexpr) (s : csrc)       (* [p for x in s] *)
+| EAny (a : expr)                    (* any(a) *)
+| EJoin (s a : expr)                 (* s.join(a) *)
 | EInt (z : Z)
 | EEmptyList
 | ESelf
@@ -256,6 +291,11 @@ Definition list_op (r : recv) (o : lop) (vs : list value) (d : state) : option (
     | None => Some (d, RExc IndexError)
     end
   | RSuper, LGetitem, [VSlice lo hi] => Some (d, RVal (VGList (py_slice lo hi lst)))
+  | RSuper, LContains, [v] =>
+    match item_of v with
+    | Some it => Some (d, RVal (VBool (existsb (fun g => item_eqb (IG g) it) lst)))
+    | None => None
+    end
   | RAll, LAppend, [v] =>
     match item_of v with
     | Some it => Some ((lst, all ++ [it]), RVal VNone)
@@ -298,6 +338,59 @@ Definition lookup (en : env) (x : nat) : option value :=
   match nth_error en x with
   | Some (Some v) => Some v
   | _ => None
+  end.
+
+Fixpoint map_opt {A B} (f : A -> option B) (l : list A) : option (list B) :=
+  match l with
+  | [] => Some []
+  | a :: t =>
+    match f a, map_opt f t with
+    | Some b, Some r => Some (b :: r)
+    | _, _ => None
+    end
+  end.
+
+(* the element expression p with the comprehension variable bound to x *)
+Fixpoint peval (p : pexpr) (en : env) (x : value) : option value :=
+  match p with
+  | PElem => Some x
+  | PVar y => lookup en y
+  | PString a =>
+    match peval a en x with
+    | Some (VGroup g) => Some (VStr (snd g))
+    | _ => None
+    end
+  | PStr a =>
+    match peval a en x with
+    | Some (VGroup g) => Some (VStr (render g))
+    | Some (VStr s) => Some (VStr s)
+    | _ => None
+    end
+  | PEq a b =>
+    match peval a en x, peval b en x with
+    | Some v1, Some v2 =>
+      match item_of v1, item_of v2 with
+      | Some i1, Some i2 => Some (VBool (item_eqb i1 i2))
+      | _, _ => None
+      end
+    | _, _ => None
+    end
+  end.
+
+Definition comp_elems (s : csrc) (d : state) : list value :=
+  match s with
+  | CSelf => map VGroup (fst d)
+  | CAll => map value_of_item (snd d)
+  end.
+
+Definition bool_of (v : value) : option bool := match v with VBool b => Some b | _ => None end.
+Definition str_of (v : value) : option pstr := match v with VStr s => Some s | _ => None end.
+
+(* sep.join(parts) *)
+Fixpoint join_with (sep : pstr) (parts : list pstr) : pstr :=
+  match parts with
+  | [] => []
+  | p :: t => match t with [] => p | _ :: _ => p ++ sep ++ join_with sep t end
   end.
 
 Fixpoint set_var (en : env) (x : nat) (v : value) : env :=
@@ -351,6 +444,22 @@ Fixpoint eval (e : expr) (en : env) (d : state) {struct e} : eres :=
     end in
   match e with
   | ENone => EV VNone d
+  | EStr s => EV (VStr s) d
+  | EComp p s => lift_v (option_map VList (map_opt (peval p en) (comp_elems s d))) d
+  | EAny a =>
+    un a (fun v d1 =>
+      match v with
+      | VList l =>
+        lift_v (option_map (fun bs => VBool (existsb (fun b => b) bs)) (map_opt bool_of l)) d1
+      | _ => EUnsup
+      end)
+  | EJoin s a =>
+    bin s a (fun v1 v2 d2 =>
+      match v1, v2 with
+      | VStr sep, VList l =>
+        lift_v (option_map (fun ps => VStr (join_with sep ps)) (map_opt str_of l)) d2
+      | _, _ => EUnsup
+      end)
   | EInt z => EV (VInt z) d
   | EEmptyList => EV (VGList []) d
   | ESelf => EV VSelf d
@@ -461,7 +570,7 @@ Fixpoint eval (e : expr) (en : env) (d : state) {struct e} : eres :=
       match v1 with
       | VObj st => EV (VArgs (map arg_of_item (snd st))) d2
       | VNone | VBool _ | VInt _ | VStr _ | VGList _ | VSlice _ _ => EV v2 d2
-      | VGroup _ | VArgs _ | VSelf | VCls _ | VClasses _ => EUnsup
+      | VGroup _ | VArgs _ | VSelf | VCls _ | VClasses _ | VList _ => EUnsup
       end)
   | ESliceObj lo hi =>
     bin lo hi (fun v1 v2 d2 =>
@@ -650,7 +759,7 @@ Definition to_out (r : rv) : option out :=
   | RExc IndexError => Some EIndexError
   end.
 
-(* Args.op as calls of the generated methods (OpContains is not translated) *)
+(* Args.op as calls of the generated methods *)
 Definition gen_step (c : cls) (d : state) (o : op) : option outcome :=
   match o with
   | OpAppend a => Some (run_meth c M_append [value_of_arg a] d)
@@ -663,7 +772,7 @@ Definition gen_step (c : cls) (d : state) (o : op) : option outcome :=
   | OpClear => Some (run_meth c M_clear [] d)
   | OpGet i => Some (run_meth c M_getitem [VInt i] d)
   | OpSlice lo hi => Some (run_meth c M_getitem [VSlice lo hi] d)
-  | OpContains _ => None
+  | OpContains a => Some (run_meth c M_contains [value_of_arg a] d)
   end.
 
 (* states and outcomes after every operation, as Args.m_run; None as soon as an
